@@ -7,7 +7,13 @@
 open C09
 open Conv
 
-let chull = convex_hull_w hull_mc
+(* Switches for the day the two known findings are fixed in the library (defaults = current tree):
+   C09_WRAPPER=fixed    the collinear fallback returns the extreme input points (BBox.convex_hull_w_fixed, F10)
+   C09_REFHULL=offsets  a reference with an Explicit repetition is repeated at all offsets (F9); the box path
+                        then also sees the offsets, which gives the same box (C11: same extremes) *)
+let chull =
+  if Sys.getenv_opt "C09_WRAPPER" = Some "fixed" then convex_hull_w_fixed hull_mc else convex_hull_w hull_mc
+let ref_all_offsets = Sys.getenv_opt "C09_REFHULL" = Some "offsets"
 
 let show_z z = hex_of_z z
 let show_box = function
@@ -32,8 +38,11 @@ let () =
     let expect s = let t = next () in if t <> s then raise (Bad ("expected " ^ s ^ " got " ^ t)) in
     let lists () = expect ":"; let no = int () in let o = points no in let ne = int () in let e = points ne in
       Some { offs = o; exts = e } in
+    let last_rep_kind = ref "n" in
     let rep () =
-      match next () with
+      let k = next () in
+      last_rep_kind := k;
+      match k with
       | "n" -> None
       | "R" -> ignore (int ()); ignore (int ()); ignore (next ()); ignore (next ()); lists ()
       | "G" -> ignore (int ()); ignore (int ()); for _ = 1 to 4 do ignore (next ()) done; lists ()
@@ -73,6 +82,9 @@ let () =
               let mag = num () in
               let xr = int () <> 0 in
               let r = rep () in
+              let r = (match r with
+                       | Some rr when ref_all_offsets && !last_rep_kind = "E" -> Some { offs = rr.offs; exts = rr.offs }
+                       | _ -> r) in
               if ci >= i then raise (Bad "child index");
               ({ pl_org = o; pl_ca = ca; pl_sa = sa; pl_quarter = quarter; pl_mag = mag; pl_xrefl = xr; pl_rep = r },
                cells.(ci))) in
